@@ -33,6 +33,9 @@ def run(ctx):
     # type per file: the verdict does not depend on which file is read first (and no order crashes)
     for fam in ("inherit", "alias", "contain"):
         ctx.tlc("MC_CyclesGen", "MC_CyclesGen_%s_files" % fam, replay="repro", coverage=False, label="MC_CyclesGen_%s_files" % fam)
+    # files that re-open one module, each with a doc link spelled alike that designates a member of its own container: what a
+    # comment is bound to is part of the file's compiled content (the digests cover doc comments and their link targets)
+    ctx.tlc("MC_LinkFiles", "MC_LinkFiles" if ctx.quick else "MC_LinkFiles_thorough", replay="repro", coverage=False)
     # two files with lints at the same rows and columns, some of them suppressed (the program of C13): which lints are
     # reported does not depend on the order of the files
     ctx.tlc("MC_ManyLints", "MC_ManyLints_one" if ctx.quick else "MC_ManyLints", replay="repro", coverage=False, label="MC_ManyLints(file orders)")
